@@ -3,9 +3,17 @@
 //! with fault injection. One binary per feature configuration (std / alloc / no_std).
 
 mod choice;
+#[cfg(not(feature = "cfg-nostd"))]
+mod costream;
+#[cfg(feature = "cfg-nostd")]
+#[path = "costream_stub.rs"]
 mod costream;
 mod exec;
 mod gen;
+#[cfg(not(feature = "cfg-nostd"))]
+mod group;
+#[cfg(feature = "cfg-nostd")]
+#[path = "group_stub.rs"]
 mod group;
 mod json;
 mod leaf;
